@@ -28,7 +28,7 @@ META['explanation'] += ' ' + 'R5 samples 8 byte fields beyond 2^32 and instants 
 
 META['explanation'] += ' ' + 'R8: timestamp fields receive the stored attribute (a constant in place of None never writes the sentinel).'
 
-META['explanation'] += ' ' + 'R3 also: a local-time function handed on as a value (converter), astimezone on a value whose zone was not tested. R10 / R11: the primitives keep nothing between calls.'
+META['explanation'] += ' ' + 'R3 also: a local-time function handed on as a value (converter), astimezone on a value whose zone was not tested. R10 / R11: the primitives keep nothing between calls. R12: no stripping, case mapping or replacement inside the shared string / byte primitives.'
 
 LOCAL_TIME = {'time.mktime', 'time.localtime', 'time.timezone', 'time.altzone', 'time.daylight', 'time.tzname', 'time.ctime',
               'time.asctime', 'time.strftime'}
@@ -59,6 +59,7 @@ def check(ctx, report):
     module_level_state(ctx, report, RULE='C11.R10', title='the primitives keep nothing between calls: no function changes a module level container')
     stateless_parsing(ctx, report, RULE='C11.R11', allow_memo=True, modules=('cryptoparser/common/parse.py',),
                       title='no primitive writes class level state')
+    octets_unchanged(ctx, report)
     pm = model.modules.get('cryptoparser.common.parse')
     if pm is None:
         report.error('C11: cryptoparser/common/parse.py vanished')
@@ -224,6 +225,15 @@ def local_time_apis(ctx, report, RULE='C11.R3', only=None):
                 if fd in ('datetime.datetime.now', 'datetime.datetime.today', 'datetime.date.today') and not n.args and not n.keywords:
                     report.count(RULE)
                     report.add(RULE, f.construct + '@' + fd, 'naive local "now"')
+                if isinstance(n.func, ast.Attribute) and n.func.attr == 'replace' and any(
+                        k.arg == 'tzinfo' and not (isinstance(k.value, ast.Constant) and k.value.value is None) for k in n.keywords):
+                    # replace(tzinfo=Z) keeps the wall clock and swaps the zone: right for a value without zone only
+                    report.count(RULE)
+                    recv = ast.unparse(n.func.value)
+                    if recv not in zone_tested and not recv.endswith(')'):
+                        report.add(RULE, f.construct + '@replace-tzinfo[%s]' % recv[:30],
+                                   '%s.replace(tzinfo=...) without a test of %s.tzinfo: a value that already carries another zone keeps its wall clock '
+                                   'and stands for another instant afterwards' % (recv, recv))
                 if isinstance(n.func, ast.Attribute) and n.func.attr == 'astimezone':
                     report.count(RULE)
                     recv = ast.unparse(n.func.value)
@@ -231,6 +241,46 @@ def local_time_apis(ctx, report, RULE='C11.R3', only=None):
                         report.add(RULE, f.construct + '@astimezone[%s]' % recv[:30],
                                    '%s.astimezone(...) without a test of %s.tzinfo: a datetime without zone is read as local time there, the rest '
                                    'of the package reads it as UTC' % (recv, recv))
+
+
+NORMALISING_METHODS = ('strip', 'lstrip', 'rstrip', 'lower', 'upper', 'title', 'casefold', 'swapcase', 'capitalize', 'expandtabs', 'translate',
+                       'removeprefix', 'removesuffix', 'replace', 'zfill', 'center', 'ljust', 'rjust')
+# numeric codecs that cut zero octets by definition (the value, not text, decides): reviewed, one line each
+NORMALISING_REVIEWED = {
+    ('ComposerBinary._compose_mpint', 'lstrip'): "leading zero octets of the packed words are not part of an mpint (b'\\x00' only)",
+    ('ComposerBinary._compose_mpint', 'rstrip'): "little-endian twin of the same cut (b'\\x00' only)",
+}
+
+
+def octets_unchanged(ctx, report, RULE='C11.R12', classes=('ParserBase', 'ParserBinary', 'ComposerBase', 'ComposerBinary'),
+                     title='the shared string / byte primitives hand data on unchanged: no stripping, case folding or replacement of characters'):
+    """The primitives every binary structure is read and written with are transparent: what ``parse_string`` decodes is what was on
+    the wire and what ``compose_string_array`` joins is what the items hold.  A ``strip`` family call (a *set of characters*, not a
+    suffix), a case mapping or a ``replace`` inside them changes data of every class built on them - a name that ends in the
+    separator loses its tail, a blank at the end of a length-prefixed string disappears while the consumed length stays right.
+    Every call of such a method with positional arguments or none (``datetime.replace`` takes keywords) in the methods of the
+    primitive classes is a finding unless it is one of the reviewed numeric cuts."""
+    model = ctx.model
+    report.rule(RULE, title)
+    n = 0
+    for name in classes:
+        c = model.try_cls(name)
+        if c is None:
+            continue
+        for f in c.methods.values():
+            n += 1
+            report.touch(f)
+            for x in ast.walk(f.node):
+                if isinstance(x, ast.Call) and isinstance(x.func, ast.Attribute) and x.func.attr in NORMALISING_METHODS and \
+                        not (x.func.attr == 'replace' and not x.args):
+                    key = ('%s.%s' % (c.name, f.name), x.func.attr)
+                    if key in NORMALISING_REVIEWED and all(isinstance(a, ast.Constant) and a.value == b'\x00' for a in x.args):
+                        continue
+                    report.add(RULE, '%s@%s[%s]' % (f.construct, x.func.attr, ast.unparse(x.func.value)[:30]),
+                               '%s(%s) inside a primitive every structure is built on: the data handed on is not the data that was read / given '
+                               '(strip takes a set of characters, not a suffix)' % (ast.unparse(x.func)[:50], ', '.join(ast.unparse(a)[:20] for a in x.args)))
+    report.count(RULE, n)
+    report.floor(RULE, 25, 'methods of the primitive classes')
 
 
 def fields_written_as_stored(ctx, report, RULE='C11.R8', kinds=('ts',), modules=None, what=('in place of attribute',), links=False,
